@@ -603,18 +603,22 @@ def check(pid, tier, seed, update_baseline=False):
             for extra in cfg.get("scans", []):
                 import scans
                 scans.run(extra, res, sc)
-        if update_baseline and getattr(res, "fn_hashes", None):
-            known = load_json(FNHASH_FILE, {})
-            known.update(res.fn_hashes)
-            json.dump(known, open(FNHASH_FILE, "w"), indent=0, sort_keys=True)
         if update_baseline:
-            baseline = load_json(BASELINE_FILE, {})
-            entry = baseline.get(pid, {})
-            if isinstance(entry, list):
-                entry = {"quick": entry}
-            entry[tier] = sorted(o["id"] for o in res.obligations if o["status"] in ("discharged", "bounded", "known-finding"))
-            baseline[pid] = entry
-            json.dump(baseline, open(BASELINE_FILE, "w"), indent=0, sort_keys=True)
+            # read-modify-write of two shared files: serialise concurrent runs
+            import fcntl
+            with open(os.path.join(VERIF, "spec", ".baseline.lock"), "w") as lk:
+                fcntl.flock(lk, fcntl.LOCK_EX)
+                if getattr(res, "fn_hashes", None):
+                    known = load_json(FNHASH_FILE, {})
+                    known.update(res.fn_hashes)
+                    json.dump(known, open(FNHASH_FILE, "w"), indent=0, sort_keys=True)
+                baseline = load_json(BASELINE_FILE, {})
+                entry = baseline.get(pid, {})
+                if isinstance(entry, list):
+                    entry = {"quick": entry}
+                entry[tier] = sorted(o["id"] for o in res.obligations if o["status"] in ("discharged", "bounded", "known-finding"))
+                baseline[pid] = entry
+                json.dump(baseline, open(BASELINE_FILE, "w"), indent=0, sort_keys=True)
         if tier == "thorough" and not os.environ.get("VERIF_WORK_TAG"):
             try:
                 run_sensitivity(res, cfg)
